@@ -18,7 +18,8 @@ META = {
     "require": {t: ["class:ndims=0", "class:ndims=3", "class:ndims=4", "class:axes=3", "class:common=outside",
                     "class:shape=inferred", "class:shape=explicit", "class:n=0", "class:big_extent",
                     "cells:common_coords=0", "cells:common_coords=1", "cells:common_coords=2", "cells:common_coords>=3",
-                    "cells:reconstructed_nonzero", "class:edited_in_place_then_recounted", "class:n>2^24"]
+                    "cells:reconstructed_nonzero", "class:edited_in_place_then_recounted", "class:n>2^24", "class:sparse_rows>=2^28",
+                    "class:pool_engaged_by_the_cube_itself", "class:frequent_category_stored_explicitly"]
                 for t in ("quick", "thorough")},
     "assumptions": ["category codes are 0..extent-1 (what a cube requires); an explicit shape covers every value and "
                     "the common value"],
@@ -28,9 +29,11 @@ META = {
 def shards(tier):
     if tier == "quick":
         return [{"label": "cubes%d" % i, "n": 900} for i in range(12)] + [{"label": "big", "n": 16, "big": True},
-                                                                          {"label": "huge", "n": 2, "huge": True, "mem_gib": 12}]
+                                                                          {"label": "huge", "n": 2, "huge": True, "mem_gib": 12},
+                                                                          {"label": "sparse", "n": 40, "sparse": True}]
     return [{"label": "cubes%d" % i, "n": 70000} for i in range(15)] + [{"label": "big", "n": 600, "big": True},
-                                                                             {"label": "huge", "n": 8, "huge": True, "mem_gib": 12}]
+                                                                             {"label": "huge", "n": 8, "huge": True, "mem_gib": 12},
+                                                                             {"label": "sparse", "n": 1500, "sparse": True}]
 
 
 def huge_case(rng):
@@ -49,8 +52,98 @@ def huge_case(rng):
     return {"dense": dense, "commons": commons, "shape": None, "extents": extents, "huge": True}
 
 
+def sparse_case(rng):
+    """Indexes of 2^28..2^31 rows given by a handful of explicit cells (no dense twin is ever built).
+    With three or more sub-cubes and rows x sub-cubes >= 2^30 the cube engages its worker pool on its
+    own, so this is also the only place where the un-forced pooled path of the index cube runs."""
+    n = int(gen.pick(rng, [2 ** 28 + 1, 2 ** 29, 2 ** 29 + 3, 2 ** 30, 2 ** 31 + 5]))
+    ndims = int(rng.integers(1, 4))
+    dims = []
+    for d in range(ndims):
+        ext = int(rng.integers(2, 5))
+        extra = tuple(int(rng.integers(2, 7)) for _ in range(int(gen.pick(rng, [0, 1, 1, 2]))))
+        common = int(rng.integers(0, ext))
+        cells = {}
+        for _ in range(int(rng.integers(0, 25))):
+            row = int(gen.pick(rng, [0, 1, n - 1, n - 2, int(rng.integers(0, n)), int(rng.integers(0, 50))]))
+            pos = tuple(int(rng.integers(0, e)) for e in extra)
+            v = int(rng.integers(0, ext))
+            if v != common:
+                cells[(row,) + pos] = v
+        dims.append({"n": n, "extra": extra, "common": common, "extent": ext, "cells": sorted(cells.items())})
+    return {"sparse": dims, "n": n, "rma": gen.pick(rng, [NaN, (0, False)])}
+
+
+def judge_sparse(ctx, case):
+    import catii
+    import itertools
+
+    n = case["n"]
+    specs = case["sparse"]
+    dims = []
+    for sp in specs:
+        entries = {}
+        for (cell, v) in sp["cells"]:
+            entries.setdefault((v,) + tuple(cell[1:]), []).append(cell[0])
+        entries = {k: numpy.array(sorted(set(r)), dtype=numpy.uint32) for k, r in entries.items()}
+        dims.append(catii.iindex(entries, sp["common"], (n,) + tuple(sp["extra"])))
+    shape = tuple(sp["extent"] for sp in specs)
+    cube = catii.ccube(dims, interacting_shape=shape)
+    sub = int(numpy.prod([e for sp in specs for e in sp["extra"]] or [1]))
+    ctx.count("class:sparse_rows>=2^28")
+    if cube.parallel:
+        ctx.count("class:pool_engaged_by_the_cube_itself")
+    res = cube.count(return_missing_as=case["rma"])
+    # sparse reference: only rows that hold an uncommon value somewhere need to be looked at
+    sshape = tuple(e for sp in specs for e in sp["extra"])
+    ref = numpy.zeros(sshape + shape, dtype=float)
+    per_dim_pos = [list(numpy.ndindex(*sp["extra"])) if sp["extra"] else [()] for sp in specs]
+    for pos in itertools.product(*per_dim_pos):
+        spos = tuple(i for p in pos for i in p)
+        rows = {}
+        for d, (sp, p) in enumerate(zip(specs, pos)):
+            for (cell, v) in sp["cells"]:
+                if tuple(cell[1:]) == tuple(p):
+                    rows.setdefault(cell[0], {})[d] = v
+        for r, vals in rows.items():
+            coord = tuple(vals.get(d, specs[d]["common"]) for d in range(len(specs)))
+            ref[spos + coord] += 1
+        ref[spos + tuple(sp["common"] for sp in specs)] += n - len(rows)
+    ctx.evaluation({"sparse": specs, "n": n, "r": repr(case["rma"])}, len(specs) >= 2)
+    if ctx.evals % 3 == 1:
+        ctx.sample({"sparse_rows": n, "dims": [{"extra": list(sp["extra"]), "common": sp["common"], "explicit_cells": len(sp["cells"])} for sp in specs],
+                    "sub_cubes": sub, "pool_engaged": bool(cube.parallel)})
+    bad = oracles.compare(res, case["rma"], ref, ref == 0, 0.0)
+    if bad:
+        ctx.violation("count:sparse-huge:%s:pool=%s" % (bad[0], bool(cube.parallel)),
+                      "%d rows, %d sub-cubes (pool engaged: %s): %s" % (n, sub, bool(cube.parallel), bad[1]), case)
+
+
+def lopsided_case(rng):
+    """A few thousand rows, a frequent category stored EXPLICITLY (the common value is a rare one),
+    crossed with rare categories: long row-id lists intersected with short ones."""
+    n = int(gen.pick(rng, [3000, 6000, 40000]))
+    ndims = int(rng.integers(2, 4))
+    dense, commons, extents = [], [], []
+    for d in range(ndims):
+        ext = int(rng.integers(3, 6))
+        a = numpy.zeros(n, dtype=numpy.int64)
+        rare = rng.choice(n, size=int(rng.integers(3, 60)), replace=False)
+        a[rare] = rng.integers(1, ext, size=len(rare))
+        if rng.random() < 0.5 and d:
+            a[: int(rng.integers(2, 40))] = ext - 1          # adjacent rows
+        dense.append(a)
+        commons.append(int(rng.integers(1, ext)) if rng.random() < 0.8 else 0)
+        extents.append(ext)
+    return {"dense": dense, "commons": commons, "shape": None, "extents": extents}
+
+
 def cases(ctx):
     rng = ctx.rng
+    if ctx.shard.get("sparse"):
+        for i in range(ctx.shard["n"]):
+            yield sparse_case(rng)
+        return
     if ctx.shard.get("huge"):
         for i in range(ctx.shard["n"]):
             c = huge_case(rng)
@@ -62,6 +155,9 @@ def cases(ctx):
         if ctx.shard.get("big"):
             c = gen.cube_case(rng, ndims=int(rng.integers(1, 3)), n=gen.pick(rng, [5, 60, 300]), max_axes=1,
                               big_extent=True)
+        elif i % 60 == 17:
+            c = lopsided_case(rng)
+            ctx.count("class:frequent_category_stored_explicitly")
         else:
             c = gen.cube_case(rng, n=(2000 if rng.random() < 0.3 else gen.pick(rng, [255, 256, 257, 65535, 65536, 65537]))
                               if rng.random() < 0.03 else None)
@@ -101,6 +197,8 @@ def probe():
 def judge(ctx, case):
     import catii
 
+    if "sparse" in case:
+        return judge_sparse(ctx, case)
     dense = [numpy.asarray(d) for d in case["dense"]]
     commons = case["commons"]
     n = dense[0].shape[0] if dense else int(case.get("N", 7))
